@@ -507,7 +507,7 @@ func c13Judge(op, impl, model string) Verdict {
 	if len(ip) > 1 && ip[1] != "" && v.OracleFail == "" {
 		v.OracleFail = ip[1]
 		v.Sig = name + ":" + strings.Join(strings.Fields(ip[1])[:3], "-")
-		if strings.HasPrefix(ip[1], "JSONRAW") {
+		if strings.HasPrefix(ip[1], "JSONRAW") && !strings.Contains(ip[1], "; ") {
 			v.Sig = "stream:json-raw-not-prefix"
 		}
 		if strings.HasPrefix(ip[1], "EMPTYOBJ") {
